@@ -209,6 +209,13 @@ class Index:
                 while start > lo and (toks[start - 1].s == "pub" or (toks[start - 1].s == ")" and self._is_pub_paren(start - 1))):
                     start = start - 1 if toks[start - 1].s == "pub" else self._open_of(start - 1) - 1
                 parent.children.append(Item("const", join(toks[i:i + 2]), toks[i + 1].s, start, -1, j, parent))
+                if toks[i + 1].s == "_":
+                    # `const _: () = { impl ... };` (derive output): the items inside belong to the enclosing scope
+                    e = i + 2
+                    while e < j and toks[e].s != "=":
+                        e += 1
+                    if e + 1 < j and toks[e + 1].s == "{":
+                        self._scan(parent, e + 2, match_close(toks, e + 1))
                 i = j + 1
                 continue
             if t.k == "id" and t.s in ("mod", "impl", "trait", "fn", "struct", "enum", "union"):
